@@ -104,7 +104,7 @@ StateClauses(e) ==
 
 \* ---- evaluation of a target species: e.x aligned with st.keys; per temperature t = 1, 2:
 \*      e.T[t]; Hon/Hoff/Gon/Goff/HkJon/HkJoff (Dec); exact twins as Dec2:
-\*      e.S, e.Cp, e.Cv, e.H2, e.G2 = <<on, off, none>> per temperature; e.R = R in kJ/mol/K
+\*      e.S, e.Cp, e.Cv, e.H2, e.G2, e.GSe (G with S_elements=True) = <<on, off, none>> per temperature; e.R = R in kJ/mol/K
 DH(e, t) == Sub(e.Hon[t], e.Hoff[t])
 Energy(e, t) == Mul(DH(e, t), e.T[t])
 OffTerms(e) == [j \in 1..Len(st.off) |-> Mul(Mul(st.off[j], e.x[j]), st.Tref)]     \* e.x[j] is a Dec
@@ -128,6 +128,7 @@ EvalClauses(e) ==
                             /\ Equal2(e.Cv[t][1], e.Cv[t][2]),
             "NoEntropyNoCp")
    \cup Chk(\A t \in 1..2 : /\ Equal2(e.H2[t][2], e.H2[t][3]) /\ Equal2(e.G2[t][2], e.G2[t][3])
+                            /\ Equal2(e.GSe[t][2], e.GSe[t][3])       \* G with S_elements=True
                             /\ Equal2(e.S[t][2], e.S[t][3]) /\ Equal2(e.Cp[t][2], e.Cp[t][3])
                             /\ Equal2(e.Cv[t][2], e.Cv[t][3]),
             "SwitchOff")
